@@ -25,7 +25,7 @@ RULE = ("(a) redis 2 consumers x 1 message: all C(10,5)=252 orders of the 5+5 ga
 ASSUMPTIONS = ["Redis and RabbitMQ are wire-level fakes; the gate delays a client's command at the server, which is what arbitrary network latency can do",
                "redis priority polling order pinned (priorities_distribution 1/0/0) in the exhaustive enumeration so that a take is exactly five commands"]
 EVAL_COUNTER = "scenarios_judged"
-REQUIRED = ["scenarios_judged", "exhaustive_orders", "gated_random_runs", "mem_offset_runs", "multi_worker_runs", "deliveries_seen", "relay_runs", "relay_returns", "relay_finish_while_other_holds", "relay_handover_patterns", "maintenance_while_held"]
+REQUIRED = ["scenarios_judged", "exhaustive_orders", "gated_random_runs", "mem_offset_runs", "multi_worker_runs", "deliveries_seen", "relay_runs", "relay_returns", "relay_finish_while_other_holds", "relay_handover_patterns", "maintenance_while_held", "finish_while_take_in_flight"]
 CASE_TIMEOUT = 150
 
 
@@ -36,6 +36,8 @@ def gen_cases(tier, seed):
     chunk = 21 if tier == "quick" else 12
     for i in range(0, len(orders), chunk):
         cases.append({"type": "exhaustive", "orders": [list(o) for o in orders[i:i + chunk]], "seed": 1})
+        # the same orders with consumer A shut down while one of its five commands is still on the wire
+        cases.append({"type": "exhaustive", "fin": True, "orders": [list(o) for o in orders[i:i + chunk]], "seed": 1})
     n = {"quick": 12, "thorough": 150}[tier]
     for kind in ("redis", "rabbit"):
         for i in range(n):
@@ -115,8 +117,9 @@ def judge_alternation(events, kind, ctx, out, stats, double_takes=()):
                 held_by = None
 
 
-async def exhaustive(loop, order_a, out, stats, fps):
-    """Two redis consumers, one message; A's five commands take the positions `order_a` among the ten."""
+async def exhaustive(loop, order_a, out, stats, fps, fin_at=None):
+    """Two redis consumers, one message; A's five commands take the positions `order_a` among the ten.
+    fin_at: A.finish() is called while A's fin_at-th command is still parked at the server (its take may be in flight)."""
     from repid.message import MessageCategory
     from rv.rigs import Rig, key_of
 
@@ -134,21 +137,41 @@ async def exhaustive(loop, order_a, out, stats, fps):
         await consA.start()
         await consB.start()
         schedule = ["redis-pa" if i in order_a else "redis-pb" for i in range(10)]
+        na = 0
+        fin_task = None
         for label in schedule:
             for _ in range(2000):
                 if gate.parked[label]:
                     break
                 await asyncio.sleep(0.001)
             if not gate.parked[label]:
+                if label == "redis-pa" and fin_task is not None:
+                    continue
                 break  # that client has nothing more to say (e.g. it found the queue empty and went to sleep)
+            if label == "redis-pa":
+                if fin_at is not None and na == fin_at and fin_task is None:
+                    fin_task = loop.create_task(consA.finish())  # shutdown while this command is on the wire
+                    for _ in range(5):
+                        await asyncio.sleep(0)
+                na += 1
             gate.release(label)
             await asyncio.sleep(0.0002)
         gate.release_all()
+        gate.open = True
         await asyncio.sleep(0.5)
+        if fin_task is not None:
+            await asyncio.wait_for(fin_task, 10)
+            stats["finish_while_take_in_flight"] += 1
         got = []
-        for name, cons in (("A", consA), ("B", consB)):
+        consumers = [("A", consA), ("B", consB)] if fin_task is None else [("B", consB)]
+        if fin_task is not None:
+            consC = cb.message_broker.get_consumer("q", None, None, MessageCategory.NORMAL)
+            await consC.start()
+            consumers.append(("C", consC))
+            consumers.append(("B", consB))  # B's own prefetcher may be the one that is handed the message again
+        for name, cons in consumers:
             try:
-                key, _, _ = await asyncio.wait_for(cons.consume(), 0.35)
+                key, _, _ = await asyncio.wait_for(cons.consume(), 2.5 if name == "C" else 0.35)
                 got.append((name, key.id_))
             except asyncio.TimeoutError:
                 pass
@@ -159,10 +182,13 @@ async def exhaustive(loop, order_a, out, stats, fps):
         fps.add(hashlib.sha1(repr(gate.order[:12]).encode()).hexdigest()[:12])
         events = [(i, "D", id_, who) for i, (who, id_) in enumerate(got)]
         judge_alternation(events, "redis", "exhaustive-2x1", out, stats, rig.server.double_takes)
-        if not got:
+        if not got and fin_task is None:
             out.append(V("lost", "redis", "exhaustive-2x1", f"order {order_a}: nobody received m1; server order {gate.order[:12]}; state {rig.snapshot()}"))
         rig.server.gate = None
-        await consA.finish()
+        if fin_task is None:
+            await consA.finish()
+        else:
+            await consC.finish()
         await consB.finish()
         await ca.disconnect()
         await cb.disconnect()
@@ -594,7 +620,12 @@ def run_case(case):
     out, fps, samples = [], set(), []
     if case["type"] == "exhaustive":
         seen_orders = []
-        for o in case["orders"]:
+        for oi, o in enumerate(case["orders"]):
+            if case.get("fin"):
+                res = vl.run(lambda loop, o=o: exhaustive(loop, o, out, stats, fps, fin_at=(oi + sum(o)) % 5), max_steps=1_000_000, seed=1)
+                if res.exc is not None:
+                    out.append(V("harness_or_api_error", "redis", "exhaustive-finish", f"{o}: {type(res.exc).__name__}: {res.exc}"))
+                continue
             res = vl.run(lambda loop, o=o: exhaustive(loop, o, out, stats, fps), max_steps=1_000_000, seed=1)
             if res.exc is not None:
                 out.append(V("harness_or_api_error", "redis", "exhaustive", f"{o}: {type(res.exc).__name__}: {res.exc}"))
